@@ -437,7 +437,7 @@ def run(tier, replay=None):
       if c != 0:
         # 3: the tree reading clashes, the implementation (with a shared sub-reference) reports nothing - known finding
         key = 'shared-subreference:lost-clash' if c == 3 else 'shared:%s:%s' % ('spurious-clash' if c == 4 else 'types', common.short_hash([a, b]))
-        if rep.violation(key, {'a': a, 'b': b, 'observed': [x, y], 'judge_code': c,
+        if (found < 8 or key == 'shared-subreference:lost-clash') and rep.violation(key, {'a': a, 'b': b, 'observed': [x, y], 'judge_code': c,
                                'law': 'a record in which two fields hold the SAME reference object (a ground type) unifies like the '
                                       'record with two separate references of that type (oracle: Coq meet on the tree reading)',
                                'how': 'props.c16.run_shared: build_ref(..., share=True) on both terms, reference_algebra.Unify'}):
